@@ -154,7 +154,7 @@ def make_case(ctx, cid, small):
     x0 = [Fraction(0)] * n if r < 0.55 else ([Fraction(rng.randint(-6, 6)) for _ in range(n)] if r < 0.95 else list(xs))
     b = [sum(a * xs[j] for j, a in row.items()) for row in rows]
     sweeps = rng.choice([1, 1, 1, 2, 3])          # num_smooth_sweeps: every additional Gauss-Seidel sweep is non-expansive too
-    toks = [cid, "cyc", cls, co, it, rl, theta, str(max_coarse), str(K), "1" if small else "0", "asis/%d" % sweeps] + \
+    toks = [cid, "cyc", cls, co, it, rl, theta, str(max_coarse), str(K), "1" if small else "0", "asis/%d/%d" % (sweeps, rng.choice([1, 1, 0, 2]))] + \
         rows_to_csr_tokens(rng, rows, rng.random() < 0.25) + [nums.tok_num(a) for a in x0] + [nums.tok_num(a) for a in b] + \
         ["XS"] + [nums.tok_num(a) for a in xs]
     return dict(cid=cid, line=" ".join(toks), small=small, kind=kind)
